@@ -1765,6 +1765,14 @@ class TLSConnection(TLSRecordLayer):
                     yield result
             self.heartbeat_supported = True
 
+        # our certificate is part of the session only if it was sent (or
+        # was sent in the session we are resuming)
+        if not certificate_request:
+            if resuming and session:
+                clientCertChain = session.clientCertChain
+            else:
+                clientCertChain = None
+
         self.session.create(secret,
                             bytearray(b''),  # no session_id in TLS 1.3
                             serverHello.cipher_suite,
@@ -3438,6 +3446,10 @@ class TLSConnection(TLSRecordLayer):
 
         if not client_cert_chain and resumed_client_cert_chain:
             client_cert_chain = resumed_client_cert_chain
+
+        # with PSK key exchange the Certificate message is not sent
+        if selected_psk is not None:
+            serverCertChain = None
 
         self.session.create(secret,
                             bytearray(b''),  # no session_id
